@@ -86,7 +86,12 @@ impl Parse for JoinInputDefault {
             WRAPPER_DETERMINER,
         );
 
-        for _ in 0..4 {
+        // Options may come in any order, so look for them until none is left.
+        while input.peek(keywords::futures_crate_path)
+            || input.peek(keywords::custom_joiner)
+            || input.peek(keywords::transpose_results)
+            || input.peek(keywords::lazy_branches)
+        {
             if input.peek(keywords::futures_crate_path) {
                 input.parse::<keywords::futures_crate_path>()?;
                 let content;
